@@ -72,11 +72,14 @@ RECURSIVE ParamNames(_)
 ParamNames(e) == (IF e.op = "param" THEN {e.name} ELSE {}) \cup UNION {ParamNames(e.args[i]) : i \in DOMAIN e.args}
 Objs == ObjsOf(Prob, "T")
 First == CHOOSE o \in Objs : TRUE
-\* environments: q and x range over all objects when they occur (free) in either expression
+\* environments: q and the variables range over all objects of their declared types when they occur
+\* (free) in either expression
+VarDom(v, fv) == IF v \in fv THEN ObjsOf(Prob, VarTypes[v]) ELSE {CHOOSE o \in ObjsOf(Prob, VarTypes[v]) : TRUE}
 EnvsFor(e, r) ==
    LET qs == IF "q" \in ParamNames(e) \cup ParamNames(r) THEN Objs ELSE {First}
-       xs == IF "x" \in FreeVars(e) \cup FreeVars(r) THEN Objs ELSE {First}
-   IN {[q |-> OV(a), x |-> OV(b)] : a \in qs, b \in xs}
+       fv == FreeVars(e) \cup FreeVars(r)
+   IN {[q |-> OV(a), x |-> OV(b), y |-> OV(c), z |-> OV(d)] :
+          a \in qs, b \in VarDom("x", fv), c \in VarDom("y", fv), d \in VarDom("z", fv)}
 
 \* ---------------------------------------------------------------------------
 \* clauses
@@ -127,13 +130,32 @@ ElimAt(t) ==
 Closed(t) == FluentNames(t) = {} /\ ParamNames(t) = {} /\ FreeVars(t) = {}
 NegMinusAt(t) ==
    /\ t.op = "minus" /\ Closed(t.args[2]) /\ ~Closed(t.args[1])
-   /\ LET v == Eval(CtxOf({}), t.args[2], <<>>, [q |-> OV(First), x |-> OV(First)]) IN v.k = "n" /\ RLt(v, ZERO)
-Feature(e) == IF \E t \in Subterms(e) : SelfEqAt(t) THEN "exists-self-eq"
+   /\ LET v == Eval(CtxOf({}), t.args[2], <<>>, [q |-> OV(First)]) IN v.k = "n" /\ RLt(v, ZERO)
+\* ... with a term one of whose variables is re-bound, in the rest of the body, around an occurrence of
+\* the bound variable (substituting the term there captures it)
+CaptureAt(t) ==
+   /\ t.op = "exists" /\ t.args[1].op = "and"
+   /\ \E i \in DOMAIN t.args[1].args :
+         LET c == t.args[1].args[i] IN
+         /\ c.op = "eq"
+         /\ \E j \in {1, 2} :
+               /\ c.args[j].op = "var" /\ c.args[j].name \in BoundNames(t) /\ c.args[3 - j] # c.args[j]
+               /\ \E k \in DOMAIN t.args[1].args \ {i} :
+                     \E s \in Subterms(t.args[1].args[k]) :
+                        /\ s.op \in {"exists", "forall"}
+                        /\ BoundNames(s) \cap FreeVars(c.args[3 - j]) # {}
+                        /\ c.args[j].name \in FreeVars(s.args[1]) \ BoundNames(s)
+\* ... where the bound variable has a proper subtype (the other term may have the supertype)
+Parent(tn) == LET is == {i \in DOMAIN Prob.types : Prob.types[i].name = tn} IN Prob.types[CHOOSE i \in is : TRUE].parent
+SubtypedAt(t) == ElimAt(t) /\ \E i \in DOMAIN t.vars : Parent(t.vars[i].type.name) # ""
+Feature(e) == IF \E t \in Subterms(e) : SubtypedAt(t) THEN "exists-elim-subtyped"
+              ELSE IF \E t \in Subterms(e) : SelfEqAt(t) THEN "exists-self-eq"
+              ELSE IF \E t \in Subterms(e) : CaptureAt(t) THEN "exists-elim-capture"
               ELSE IF \E t \in Subterms(e) : ElimAt(t) THEN "exists-elim"
               ELSE IF \E t \in Subterms(e) : NegMinusAt(t) THEN "minus-neg-const"
               ELSE Shape(e)
 
-ValStr(w) == ToString(w[1]) \o " q=" \o w[2].q.o \o " x=" \o w[2].x.o
+ValStr(w) == ToString(w[1]) \o " q=" \o w[2].q.o \o " x=" \o w[2].x.o \o " y=" \o w[2].y.o \o " z=" \o w[2].z.o
 
 \* the set of <<class, clause, feature, witness>> found by variant V of case c  (class "F" = failed clause; "U" / "M" = not a verdict)
 JudgeV(c, V) ==
